@@ -1,5 +1,5 @@
 """C06 — active fabric (see DESIGN §8): Lean Conc.Fab model tied to the real fabric threads under dsched."""
-import fabric_corr
+import fabric_corr, pubsub_corr
 
 
 def explore(run, lean):
@@ -8,6 +8,9 @@ def explore(run, lean):
     fabric_corr.explore_subscribe_race(run, 60 if run.tier == "quick" else 1500)
     for _ in range(1 if run.tier == "quick" else 6):
         fabric_corr.explore_many_subscribers(run, "C06")
+    # subscriptions made by active objects (before start: queued as a meta event; after start: direct), fifo / lifo / both
+    pubsub_corr.explore(run, 24 if run.tier == "quick" else 216)
+    pubsub_corr.explore_position(run, focus="C07")
     run.extra["rule"] = ("(a) scenarios: 1-4 subscriber queues (plain deques and active-object LockingDeques, several of them empty = equal "
                          "contents), one or two client threads issuing subscribe/publish/start/stop/clear/is_alive (start/stop/clear "
                          "from one thread only); half of them structured (subscribe*, publish* before the first start = maximal "
@@ -20,4 +23,7 @@ def explore(run, lean):
 
 
 def replay(case):
+    cc0 = case.get("case", case)
+    if "sub_when" in cc0:
+        return pubsub_corr.replay(case)
     return fabric_corr.replay(case)
